@@ -96,7 +96,8 @@ func corrIgnore(o corrOpts) *res.Summary {
 			if len(parts) < 3 || !strings.HasSuffix(parts[1], "a") {
 				continue
 			}
-			twinID := parts[0] + "/" + strings.TrimSuffix(parts[1], "a") + "b/" + parts[2]
+			// test variants carry the root twice: "exp/k5a/u0/svc [exp/k5a/u0/svc.test]"
+			twinID := strings.ReplaceAll(a.pkgID, "/"+parts[1]+"/", "/"+strings.TrimSuffix(parts[1], "a")+"b/")
 			b, ok := byID[twinID]
 			if !ok {
 				continue
